@@ -2,6 +2,7 @@ package main
 
 import (
 	"bufio"
+	"encoding/hex"
 	"fmt"
 	"os"
 	"path"
@@ -183,7 +184,19 @@ func (d *driver) abstractTrace(calls []string, cache string) map[string][]sysEve
 				}
 				add(sysEvent{kind: "unlink", rel: rel})
 			}
-		case "rename", "renameat", "renameat2", "linkat", "link", "ftruncate", "truncate":
+		case "rename", "renameat", "renameat2":
+			qs := reQuoted.FindAllStringSubmatch(args, -1)
+			if len(qs) < 2 || ret != "0" {
+				continue
+			}
+			src, ok1 := relOf(qs[0][1])
+			dst, ok2 := relOf(qs[1][1])
+			if ok1 && ok2 {
+				add(sysEvent{kind: "rename", rel: src, rel2: dst})
+			} else if ok1 || ok2 {
+				add(sysEvent{kind: "create", rel: "?rename-across-the-cache-boundary"})
+			}
+		case "linkat", "link", "ftruncate", "truncate":
 			// not part of the protocol: make the trace unacceptable
 			qs := reQuoted.FindAllStringSubmatch(args, -1)
 			for _, q := range qs {
@@ -212,6 +225,9 @@ func (d *driver) tevTerm(ctx *absCtx, e sysEvent) string {
 		return fmt.Sprintf("(TStat %s %s)", p, gal.Bool(e.found))
 	case "unlink":
 		return "(TRemove " + p + ")"
+	case "rename":
+		q, _ := ctx.pathTerm(e.rel2)
+		return fmt.Sprintf("(TRename %s %s)", p, q)
 	case "symlink":
 		q, _ := ctx.pathTerm(e.rel2)
 		return fmt.Sprintf("(TSymlink %s %s %s)", p, q, gal.Bool(!e.found))
@@ -239,7 +255,7 @@ func (d *driver) emitTraces(what string, rev int, stfile, cache string) int {
 		evs := groups[g]
 		hasProto := false
 		for _, e := range evs {
-			if e.kind == "create" || e.kind == "symlink" || e.kind == "unlink" || e.kind == "mkdir" {
+			if e.kind == "create" || e.kind == "symlink" || e.kind == "unlink" || e.kind == "mkdir" || e.kind == "rename" {
 				hasProto = true
 			}
 		}
@@ -253,9 +269,21 @@ func (d *driver) emitTraces(what string, rev int, stfile, cache string) int {
 			builder = fmt.Sprintf("(BIndex %s %s)", gal.Str(idir), gal.Str(d.w.revs[rev].b32))
 		} else {
 			var found bool
+			// no expand-apk directory but a rename: cachedPackage found control and data and
+			// PackageData rebuilt the tar (a reader)
+			reader := true
+			for _, e := range evs {
+				if e.kind == "mkdir" {
+					reader = false
+				}
+			}
 			for _, b := range d.w.revs[rev].repo.Built[arch] {
 				if pdirOf(b) == g {
-					builder = fmt.Sprintf("(BPackage %s %s)", gal.Str(g), apkTerm(b))
+					if reader {
+						builder = fmt.Sprintf("(BReader %s %s)", gal.Str(g), gal.Str(hex.EncodeToString(b.DataSHA256)))
+					} else {
+						builder = fmt.Sprintf("(BPackage %s %s)", gal.Str(g), apkTerm(b))
+					}
 					found = true
 				}
 			}
@@ -322,5 +350,14 @@ func (d *driver) stageTrace() {
 		d.checkBuild("trace: A after B populated", 0, spk, c2, rA, map[string]any{"exp": "trace"})
 		total += d.emitTraces("loser-removes", 0, st3, c2)
 	}
+	// a build killed between advertising .dat.tar.gz and .dat.tar; the next build's
+	// cachedPackage rebuilds the tar: temporary file, then rename
+	c3 := d.newCache()
+	d.w.setRev(0)
+	d.w.run(runSpec{Cache: c3, Pkgs: spk, CrashAt: "pkg.post-advertise-dat#1"})
+	st4 := filepath.Join(d.w.root, fmt.Sprintf("strace-%d.out", d.ncache))
+	rR := d.w.run(runSpec{Cache: c3, Pkgs: spk, Strace: st4})
+	d.checkBuild("trace: reader that rebuilds the tar", 0, spk, c3, rR, map[string]any{"exp": "trace"})
+	total += d.emitTraces("reader-rebuilds", 0, st4, c3)
 	d.stats["trace_cases"] = total
 }
